@@ -261,17 +261,21 @@ func processExactFilter(mQuery *structs.MetricsQuery,
 
 	var err error
 	var rawTagValueToTSIDs map[string]map[uint64]struct{}
+	var mNameFound bool
 
 	if attr != nil {
-		_, _, rawTagValueToTSIDs, err = attr.getOrInsertMatchingTSIDs(mQuery.HashedMName, tf.TagKey, tf.HashTagValue, tf.TagOperator, nil)
+		mNameFound, _, rawTagValueToTSIDs, err = attr.getOrInsertMatchingTSIDs(mQuery.HashedMName, tf.TagKey, tf.HashTagValue, tf.TagOperator, nil)
 		if err != nil {
 			if utils.IsNotExistError(err) {
-				return nil
+				return applyFilterOnMissingTagKey(mQuery, tf, tracker, metricName)
 			}
 
 			log.Errorf("processExactFilter: failed to get matching tsids for mNAme %v and tag key %v. Error: %v. TagVAlH %+v tagVal %+v",
 				mQuery.MetricName, tf.TagKey, err, tf.HashTagValue, tf.RawTagValue)
 			return err
+		}
+		if !mNameFound {
+			return applyFilterOnMissingTagKey(mQuery, tf, tracker, metricName)
 		}
 	} else {
 		if tth == nil {
@@ -280,15 +284,18 @@ func processExactFilter(mQuery *structs.MetricsQuery,
 			return errors.New("unrotated tag search failed due to nil tth")
 		}
 
-		_, _, rawTagValueToTSIDs, err = tth.GetOrInsertMatchingTSIDs(mQuery.HashedMName,
+		mNameFound, _, rawTagValueToTSIDs, err = tth.GetOrInsertMatchingTSIDs(mQuery.HashedMName,
 			tf.TagKey, tf.HashTagValue, tf.TagOperator, nil)
 		if err != nil {
 			if utils.IsNotExistError(err) {
-				return nil
+				return applyFilterOnMissingTagKey(mQuery, tf, tracker, metricName)
 			}
 			log.Errorf("processExactFilter: unrotated, failed to get matching tsids for mNAme %v and tag key %v. Error: %v. TagVAlH %+v tagVal %+v",
 				mQuery.MetricName, tf.TagKey, err, tf.HashTagValue, tf.RawTagValue)
 			return err
+		}
+		if !mNameFound {
+			return applyFilterOnMissingTagKey(mQuery, tf, tracker, metricName)
 		}
 	}
 
@@ -319,7 +326,7 @@ func processWildcardOrRegexFilter(mQuery *structs.MetricsQuery,
 	if attr != nil {
 		fileExists := attr.tagTreeFileExists(tf.TagKey)
 		if !fileExists {
-			return nil
+			return applyFilterOnMissingTagKey(mQuery, tf, tracker, metricName)
 		}
 
 		itr, mNameExists, err = attr.getValueIteratorForMetric(mQuery.HashedMName, tf.TagKey)
@@ -332,13 +339,13 @@ func processWildcardOrRegexFilter(mQuery *structs.MetricsQuery,
 	}
 	if err != nil {
 		if utils.IsNotExistError(err) {
-			return nil
+			return applyFilterOnMissingTagKey(mQuery, tf, tracker, metricName)
 		}
 		return utils.WrapErrorf(err, "processWildcardOrRegexFilter: failed to get value iterator for metric %v and tag key %v. Error: %v", mQuery.MetricName, tf.TagKey, err)
 	}
 
 	if !mNameExists {
-		return nil
+		return applyFilterOnMissingTagKey(mQuery, tf, tracker, metricName)
 	}
 
 	rawTagValueToTSIDs := make(map[string]map[uint64]struct{})
@@ -439,6 +446,37 @@ func matchesRegex(tagOperator sutils.TagOperator, pattern string, tagRawValue []
 		log.Errorf("matchesRegex: Regex match error: %v", err)
 	}
 	return match
+}
+
+// Tells whether a series that does not have the tag key satisfies the filter: a
+// missing tag reads as the empty value.
+func filterAcceptsMissingTag(tf *structs.TagsFilter) bool {
+	tagVal, isString := tf.RawTagValue.(string)
+	switch tf.TagOperator {
+	case sutils.Equal:
+		return isString && (tagVal == "" || tagVal == STAR)
+	case sutils.NotEqual:
+		return !isString || tagVal != ""
+	case sutils.Regex, sutils.NegRegex:
+		return isString && matchesRegex(tf.TagOperator, tagVal, []byte{})
+	}
+	return true
+}
+
+// No series of the metric has the tag key of this filter (in this tags tree
+// holder). A filter that a missing tag cannot satisfy then matches nothing; it
+// must not be skipped, else the result depends on which other series happen to
+// share the segment.
+func applyFilterOnMissingTagKey(mQuery *structs.MetricsQuery, tf *structs.TagsFilter,
+	tracker *tsidtracker.AllMatchedTSIDs, metricName string) error {
+
+	if filterAcceptsMissingTag(tf) {
+		return nil
+	}
+	if mQuery.ExitAfterTagsSearch {
+		return tracker.BulkAddTagsOnly(nil, mQuery.MetricName, tf.TagKey)
+	}
+	return tracker.BulkAdd(nil, metricName, tf.TagKey)
 }
 
 func getGroupIDStr(tagRawValue []byte, tagRawValueType []byte) string {
